@@ -268,6 +268,27 @@ def rule_r3(repo, run):
         run.check(R, "generate.GenFunctions.define_function_suffix:only-overloads",
                   any("len(overloads) > 1" in g for g in outer),
                   "only real overload sets (more than one function of the same name) are numbered", gm.loc(lp))
+    # the numbering skips a function with a *local* function_suffix; a clone made for fewer default arguments copies the
+    # source's format scope, so an explicit suffix of the source would be the clone's suffix as well: the clone either
+    # gets its own (default_arg_suffix) or loses the inherited one before the numbering
+    hd = gm.func("GenFunctions.has_default_args")
+    tries = [t for l in ast.walk(hd) if isinstance(l, ast.For) for t in ast.walk(l)
+             if isinstance(t, ast.Try) and "default_arg_suffix" in gm.seg(t)]      # the one for the clones
+    if len(tries) != 1:
+        raise AnalysisError("C08.R3: the default_arg_suffix lookup of has_default_args not found")
+    handled = False
+    for h in tries[0].handlers:
+        for st in h.body:
+            for c in ast.walk(st):
+                if isinstance(c, ast.Call) and isinstance(c.func, ast.Attribute) and c.func.attr == "delattrs" \
+                        and "function_suffix" in gm.seg(c):
+                    handled = True
+                if isinstance(c, ast.Assign) and (pyflow.dotted(c.targets[0]) or "").endswith(".function_suffix"):
+                    handled = True
+    run.check(R, "generate.GenFunctions.has_default_args:inherited-suffix", handled,
+              "when default_arg_suffix has no entry for a variation with fewer arguments, the clone keeps the explicit "
+              "function_suffix it copied from its source: `void apply(int a, int b = 0)` with `function_suffix: _ints` gives "
+              "SFX_apply_ints(int) and SFX_apply_ints(int, int) - one C symbol for two signatures", gm.loc(tries[0]))
     # grouping key is the C++ name
     keys = [n for n in ast.walk(f) if isinstance(n, ast.Call) and isinstance(n.func, ast.Attribute)
             and n.func.attr == "setdefault" and "overloaded_functions" in gm.seg(n.func.value)]
